@@ -218,6 +218,11 @@ class ExprMixin:
         finally:
             for _ in range(guards_pushed):
                 ctx.guards.pop()
+        if all(isinstance(v, bool) or (isinstance(v, SV) and v.ty == BOOL) for v, _ in vals):
+            terms = [ctx.term(v, BOOL) for v, _ in vals]
+            if len(terms) == 1:
+                return vals[0][0]
+            return SV(BOOL, z3.And(*terms) if is_and else z3.Or(*terms))
         # fold from the right: a and b == b if truth(a) else a
         res = vals[-1][0]
         for v, t in reversed(vals[:-1]):
